@@ -524,7 +524,7 @@ func main() {
 	dw := bufio.NewWriter(df)
 	cf, _ := os.Create(out)
 	cw := bufio.NewWriter(cf)
-	evals, nontrivial, loadFailed, reloadDone, rebuildDone, netFiles, histories, interleaves, boundaries := 0, 0, 0, 0, 0, 0, 0, 0, 0
+	evals, nontrivial, loadFailed, reloadDone, rebuildDone, netFiles, histories, interleaves, boundaries, sharedWrites, coldFiles := 0, 0, 0, 0, 0, 0, 0, 0, 0, 0, 0
 	scratch := os.Getenv("VERIF_SCRATCH")
 	if scratch == "" {
 		scratch = filepath.Dir(out)
@@ -646,6 +646,14 @@ func main() {
 				fail(s, size, i, d)
 			}
 		}
+		// H: one writer shared by the three encodings
+		if s, d, cnt := checkSharedWriter(b0.Net); true {
+			evals += cnt
+			sharedWrites += cnt
+			if s != "" {
+				fail(s, size, i, d)
+			}
+		}
 		// G: boundary field values injected into the save, reloaded, saved / exported twice
 		if s, d, cnt, lf := checkBoundary(o0.wire, &rng{s: seed ^ uint64(i*53+11)}); true {
 			evals += cnt
@@ -668,7 +676,7 @@ func main() {
 		evals += hr.compared
 		histories += hr.compared
 		for k, v := range hr.applied {
-			kinds["mutation-"+k] += v
+			kinds["mutation-"+strings.ReplaceAll(k, " ", "_")] += v
 		}
 		if hr.kind != "" {
 			fail(hr.kind, size, i, hr.detail)
@@ -701,6 +709,19 @@ func main() {
 			fmt.Printf("---- Markdown\n%s\n", o0.md)
 		}
 	}
+	// I: cold ExportNetwork (not tied to a generated case)
+	if only < 0 {
+		trials := 6
+		if tier == "thorough" {
+			trials = 40
+		}
+		s, d, cnt := checkColdExportNetwork(scratch, trials)
+		evals += cnt
+		coldFiles = cnt
+		if s != "" {
+			fail(s, 0, n, d)
+		}
+	}
 	dw.Flush()
 	df.Close()
 	fmt.Fprintf(cw, "END %d\n", casesWritten)
@@ -708,8 +729,8 @@ func main() {
 	cf.Close()
 	sf, _ := os.Create(out + ".summary")
 	fmt.Fprintf(sf, "written %d\n", casesWritten)
-	fmt.Fprintf(sf, "cases %d\nevaluations %d\nnontrivial %d\ndistinct %d\nloadfailed %d\nreloads %d\nrebuilds %d\ngomaxprocs %d\nreps %d\nnetworkfiles %d\nhistories %d\ninterleaves %d\nboundaries %d\n",
-		n, evals, nontrivial, len(distinct), loadFailed, reloadDone, rebuildDone, envProcs, reps, netFiles, histories, interleaves, boundaries)
+	fmt.Fprintf(sf, "cases %d\nevaluations %d\nnontrivial %d\ndistinct %d\nloadfailed %d\nreloads %d\nrebuilds %d\ngomaxprocs %d\nreps %d\nnetworkfiles %d\nhistories %d\ninterleaves %d\nboundaries %d\nsharedwrites %d\ncoldfiles %d\n",
+		n, evals, nontrivial, len(distinct), loadFailed, reloadDone, rebuildDone, envProcs, reps, netFiles, histories, interleaves, boundaries, sharedWrites, coldFiles)
 	keys := make([]string, 0, len(kinds))
 	for k := range kinds {
 		keys = append(keys, k)
